@@ -23,7 +23,7 @@ MC_INVARIANTS = {
     "C13": ["IndicesInv", "CumulativeInv", "ReceiptsExist"],
 }
 
-SIZES = {"quick": dict(traces=40, blocks=6), "thorough": dict(traces=1500, blocks=8)}
+SIZES = {"quick": dict(traces=40, blocks=8), "thorough": dict(traces=1500, blocks=8)}
 
 
 def cfg_text(focus):
